@@ -26,6 +26,11 @@ pub struct Sink {
 }
 
 impl Sink {
+    /// a sink that discards everything
+    pub fn null() -> Self {
+        Self::new(Box::new(std::io::sink()))
+    }
+
     pub fn new(out: Box<dyn Write + Send>) -> Self {
         Self {
             inner: Arc::new(Mutex::new(Inner {
